@@ -1,1 +1,93 @@
-def main : IO Unit := pure ()
+import NfcVerif.Model.Tlv
+open NfcVerif NfcVerif.Tlv
+
+/-! line-protocol driver for the Type 1 / Type 2 Tag model (checks C01, C02, C03) -/
+
+def cfgOf (k : String) : Option Cfg :=
+  if k = "t2" then some t2Cfg else if k = "t1s" then some (t1Cfg 1) else if k = "t1d" then some (t1Cfg 8) else none
+
+/-- canonical form of a skip set: sorted disjoint maximal ranges -/
+def insRange (r : Nat × Nat) : List (Nat × Nat) → List (Nat × Nat)
+  | [] => [r]
+  | x :: xs => if r.1 ≤ x.1 then r :: x :: xs else x :: insRange r xs
+
+def mergeRanges : List (Nat × Nat) → List (Nat × Nat)
+  | [] => []
+  | [x] => [x]
+  | x :: y :: rest => if y.1 ≤ x.2 then mergeRanges ((x.1, max x.2 y.2) :: rest) else x :: mergeRanges (y :: rest)
+termination_by l => l.length
+
+def canonSkip (s : Skip) : String :=
+  let rs := mergeRanges ((s.filter fun r => r.1 < r.2).foldr insRange [])
+  if rs.isEmpty then "-" else ",".intercalate (rs.map fun r => s!"{r.1}-{r.2}")
+
+def showCmds (cs : List Cmd) : String :=
+  if cs.isEmpty then "-" else ",".intercalate (cs.map fun c => s!"{c.1}:{toHex c.2}")
+
+def showUnit : Py Unit → String
+  | .ok _ => "ok"
+  | .error e => "exc " ++ e.name
+
+def showRead (c : Cfg) (m : Bytes) : String :=
+  match readNdef c m with
+  | .error e => "exc " ++ e.name
+  | .ok none => "none"
+  | .ok (some L) =>
+    s!"L {L.off} {L.cap} {if L.readable then 1 else 0} {if L.writeable then 1 else 0} {L.areaEnd} {canonSkip L.skip} {toHex L.ndef}"
+
+/-- what a fresh reader sees, relative to the old and the new message -/
+def classify (c : Cfg) (old new : Bytes) (img : Bytes) : String :=
+  match readNdef c img with
+  | .error e => "X" ++ e.name
+  | .ok none => "N"
+  | .ok (some L) =>
+    if ¬ L.readable then "U"
+    else if L.ndef = old then "O"
+    else if L.ndef = [] then "E"
+    else if L.ndef = new then "W"
+    else s!"C{L.ndef.length}"
+
+def cutClasses (c : Cfg) (old new : Bytes) (m : Bytes) (cmds : List Cmd) : List String :=
+  let rec go (img : Bytes) : List Cmd → List String
+    | [] => [classify c old new img]
+    | x :: xs => classify c old new img :: go (writeAt img x.1 x.2) xs
+  go m cmds
+
+def doWrite (c : Cfg) (m data : Bytes) (cuts : Bool) : String :=
+  match readNdef c m with
+  | .error e => "exc " ++ e.name
+  | .ok none => "none"
+  | .ok (some L) =>
+    let out := setOctets c m L data
+    let fin := apply m out.cmds
+    let base := s!"{showRead c m} | {showUnit out.res} | {showCmds out.cmds} | {showRead c fin}"
+    if cuts then base ++ " | " ++ " ".intercalate (cutClasses c L.ndef data m out.cmds) else base
+
+def doFormat (m : Bytes) (wipe : Option Nat) : String :=
+  match readNdef t2Cfg m with
+  | .error e => "exc " ++ e.name
+  | .ok none => "false"
+  | .ok (some L) =>
+    if ¬ L.writeable then "false" else
+    match formatT2 m L wipe with
+    | .error e => "exc " ++ e.name
+    | .ok m' =>
+      let cmds := diffUnits 4 m m'
+      s!"true | {showCmds cmds} | {showRead t2Cfg (apply m cmds)}"
+
+def handle (line : String) : String :=
+  match line.splitOn " " with
+  | ["r", k, mh] => match cfgOf k, parseHex mh with
+    | some c, some m => showRead c m | _, _ => "bad-op"
+  | ["w", k, mh, dh, cu] => match cfgOf k, parseHex mh, parseHex dh with
+    | some c, some m, some d => doWrite c m d (cu = "1") | _, _, _ => "bad-op"
+  | ["wf", k, mh, n] => match cfgOf k, parseHex mh, n.toNat? with
+    | some c, some m, some n => (match readNdef c m with
+      | .ok (some L) => if decide (WF c m L) && decide (Hdr3 L n) then "1" else "0"
+      | _ => "0")
+    | _, _, _ => "bad-op"
+  | ["f", mh, w] => match parseHex mh, w.toInt? with
+    | some m, some w => doFormat m (if w < 0 then none else some w.toNat) | _, _ => "bad-op"
+  | _ => "bad-op"
+
+def main : IO Unit := runDriver handle
